@@ -2,6 +2,8 @@
 """Print the prompt given to a fresh sub-agent that must break one property (no /verif content)."""
 import json, sys
 pid = sys.argv[1]
+start = int(sys.argv[2]) if len(sys.argv) > 2 else 1
+ks = "%d, %d, %d" % (start, start + 1, start + 2)
 for l in open('/verif/properties.jsonl'):
     p = json.loads(l)
     if p['id'] == pid:
@@ -26,7 +28,7 @@ Your task: produce THREE different, independent source changes ("mutants") to th
   4. need something SPECIFIC to manifest - a particular interleaving or multi-step sequence of operations, an unusual but legal input, a fault at a particular point, a boundary value - rather than something any ordinary use would expose at once.
   5. differ from each other in WHERE and HOW they break the property (different functions / different clauses of the statement where possible). Small diffs (1-15 changed lines each).
 
-For each mutant k = 1, 2, 3 create the directory /tmp/mutout-{pid}/m<k>/ containing:
+For each mutant k = {ks} create the directory /tmp/mutout-{pid}/m<k>/ containing:
   - patch.diff : `git diff` of ONLY that mutant against the worktree's HEAD (apply-able with `git apply` on a clean checkout; paths relative to the repository root),
   - demo.rs : a self-contained Rust integration test file (uses only the public API of stun-rs / stun-agent, placed so it can be dropped as e.g. stun-agent/tests/demo_{pid.lower()}_m<k>.rs or stun-rs/tests/demo_{pid.lower()}_m<k>.rs - say which in meta.json) with one or more #[test] functions that PASS on the unmodified code and FAIL with the mutant applied, demonstrating the broken behaviour,
   - meta.json : {{"property": "{pid}", "where": "<file::function>", "what": "<one paragraph: what was changed and which clause of the property breaks>", "needs": "<what specific input/sequence/interleaving is needed to manifest>", "demo_location": "<relative path where demo.rs must be placed>", "ran": ["<commands you ran and their outcome>"]}}.
